@@ -287,6 +287,81 @@ theorem C11_empty_add (a : Program) (ha : WF a) (hu : a.usedQubits.Nodup) : add 
     extend_nil_left _ a5, extend_nil_left _ a6, extend_nil_left _ a7, extend_nil_left _ a8,
     unionSet_nil_left _ hu]
 
+/-! ### Associativity: (A + B) + C and A + (B + C) -/
+
+/-- two duplicate-free association lists with the same key sequence and the same lookups are equal -/
+theorem assoc_ext : ∀ (l1 l2 : Assoc), (keys l1).Nodup → keys l1 = keys l2 →
+    (∀ k, lookup k l1 = lookup k l2) → l1 = l2 := by
+  intro l1
+  induction l1 with
+  | nil => intro l2 _ hk _; cases l2 with | nil => rfl | cons y ys => simp [keys] at hk
+  | cons x xs ih =>
+    intro l2 hnd hk hv
+    cases l2 with
+    | nil => simp [keys] at hk
+    | cons y ys =>
+      obtain ⟨kx, vx⟩ := x
+      obtain ⟨ky, vy⟩ := y
+      simp only [keys, List.map_cons, List.cons.injEq] at hk
+      obtain ⟨hk1, hk2⟩ := hk
+      subst hk1
+      simp only [keys, List.map_cons, List.nodup_cons] at hnd
+      have hvx : vx = vy := by
+        have := hv kx
+        simpa [lookup] using this
+      subst hvx
+      have htail : xs = ys := by
+        apply ih ys (by simpa [keys] using hnd.2) (by simpa [keys] using hk2)
+        intro j
+        by_cases hj : kx = j
+        · subst hj
+          rw [(lookup_none_iff kx xs).mpr (by simpa [keys] using hnd.1),
+            (lookup_none_iff kx ys).mpr (by rw [show keys ys = List.map Prod.fst ys from rfl, ← hk2]; exact hnd.1)]
+        · have := hv j
+          simpa [lookup, hj] using this
+      rw [htail]
+
+theorem extend_assoc (a b c : Assoc) (ha : (keys a).Nodup) (hb : (keys b).Nodup) (hc : (keys c).Nodup) :
+    extend (extend a b) c = extend a (extend b c) := by
+  have hbc := nodup_extend c b hb
+  apply assoc_ext _ _ (nodup_extend c _ (nodup_extend b a ha))
+  · rw [extend_keys c _ hc, extend_keys b a hb, extend_keys _ a hbc, extend_keys c b hc]
+    simp only [List.filter_append, List.append_assoc, List.filter_filter]
+    congr 2
+    apply List.filter_congr
+    intro x _
+    by_cases h1 : x ∈ keys a <;> by_cases h2 : x ∈ keys b <;> simp [h1, h2]
+  · intro k
+    rw [extend_values _ c hc, extend_values a _ hbc]
+    simp only [pick]
+    rw [extend_values a b hb, extend_values b c hc]
+    simp only [pick]
+    cases lookup k c <;> cases lookup k b <;> rfl
+
+/-- **Associativity**: for programs with the container invariant, (A + B) + C and A + (B + C) have
+identical containers (same values, same key order) and body, and the same used-qubit set. -/
+theorem C11_assoc (a b c : Program) (ha : WF a) (hb : WF b) (hc : WF c) :
+    { add (add a b) c with usedQubits := [] } = { add a (add b c) with usedQubits := [] } ∧
+    ∀ q, q ∈ (add (add a b) c).usedQubits ↔ q ∈ (add a (add b c)).usedQubits := by
+  obtain ⟨a1, a2, a3, a4, a5, a6, a7, a8⟩ := ha
+  obtain ⟨b1, b2, b3, b4, b5, b6, b7, b8⟩ := hb
+  obtain ⟨c1, c2, c3, c4, c5, c6, c7, c8⟩ := hc
+  constructor
+  · simp only [add, addAssign, List.append_assoc, extend_assoc _ _ _ a1 b1 c1, extend_assoc _ _ _ a2 b2 c2,
+      extend_assoc _ _ _ a3 b3 c3, extend_assoc _ _ _ a4 b4 c4, extend_assoc _ _ _ a5 b5 c5,
+      extend_assoc _ _ _ a6 b6 c6, extend_assoc _ _ _ a7 b7 c7, extend_assoc _ _ _ a8 b8 c8]
+  · intro q
+    simp only [add, addAssign, mem_unionSet]
+    constructor
+    · rintro ((h | h) | h)
+      · exact Or.inl h
+      · exact Or.inr (Or.inl h)
+      · exact Or.inr (Or.inr h)
+    · rintro (h | h | h)
+      · exact Or.inl (Or.inl h)
+      · exact Or.inl (Or.inr h)
+      · exact Or.inr h
+
 /-! ### The Bool checkers evaluated by the driver mean the Prop specification -/
 
 theorem nodupB_iff (l : List String) : nodupB l = true ↔ l.Nodup := by
